@@ -12,6 +12,9 @@
 //! This module instead samples from a uniform, and guarantees that
 //! the probability of triggering behaviour for target period `n` is
 //! never less than the `1/n` guaranteed by the exponential.
+#[cfg(kismet_verif)]
+#[allow(unused_imports)]
+use kismet_vfs::{filetime, libc, rand, std, tempfile};
 use std::cell::RefCell;
 
 // This counter never has a zero value, except when uninitialised.
@@ -35,6 +38,13 @@ fn regenerate(c: &RefCell<u64>) -> u64 {
             return rnd;
         }
     }
+}
+
+/// Verification hook: swaps the calling thread's countdown state (0 is
+/// the "never initialised on this thread" state) and returns the old one.
+#[cfg(kismet_verif)]
+pub fn verif_swap_countdown(value: u64) -> u64 {
+    COUNTER.with(|c| c.replace(value))
 }
 
 /// Decrements the counter by `weight`.  Returns true (and resets the
